@@ -69,6 +69,28 @@ VOCAB = {
 _INLINED: T.Dict[T.Any, T.Tuple[T.Any, T.Any]] = {}
 
 
+# module-level functions of the anchored modules as the design read them; any other module-level function is a helper
+MODULE_VOCAB = {
+    WRAP: frozenset({'patch_command', 'ssl_truststore', 'whitelist_wrapdb', 'open_wrapdburl', 'read_and_decompress', 'get_releases_data', 'get_releases',
+                     'update_wrap_file', 'parse_patch_url', 'verbose_git'}),
+    DF: frozenset(),
+}
+
+
+def _records(mod: Module, cls: str) -> T.Dict[str, T.List[str]]:
+    """small record classes of the module: NamedTuple subclasses and dataclasses with up to four annotated fields and no methods"""
+    out: T.Dict[str, T.List[str]] = {}
+    for q, c in mod.classes().items():
+        if '.' in q or q == cls:
+            continue
+        named = any((attr_chain(b) or '').split('.')[-1] == 'NamedTuple' for b in c.bases)
+        data = any((attr_chain(d.func if isinstance(d, ast.Call) else d) or '').split('.')[-1] == 'dataclass' for d in c.decorator_list)
+        fields = [st.target.id for st in c.body if isinstance(st, ast.AnnAssign) and isinstance(st.target, ast.Name)]
+        if (named or data) and 1 <= len(fields) <= 4 and not any(isinstance(st, (ast.FunctionDef, ast.AsyncFunctionDef)) for st in c.body):
+            out[q] = fields
+    return out
+
+
 def _constants(mod: Module, cls: str) -> T.Dict[str, ast.AST]:
     """module-level and class-level names bound exactly once to a string/number literal"""
     out: T.Dict[str, ast.AST] = {}
@@ -96,8 +118,9 @@ def _fn(mod: Module, qn: str) -> T.Any:
         if len(_INLINED) > 200:
             _INLINED.clear()
         meths = mod.methods(cls)
-        new = S.inline_helpers(fn, meths, VOCAB[cls])          # (always a private copy)
-        _INLINED[key] = (mod, S.canonicalise(new, meths, cls, _constants(mod, cls)))
+        helpers = {q: f for q, f in mod.funcs().items() if '.' not in q and q not in MODULE_VOCAB.get(mod.rel, frozenset())}
+        new = S.inline_helpers(fn, meths, VOCAB[cls], modfuncs=helpers)          # (always a private copy)
+        _INLINED[key] = (mod, S.canonicalise(new, meths, cls, _constants(mod, cls), _records(mod, cls)))
     return _INLINED[key][1]
 
 
@@ -162,6 +185,9 @@ def r1a(ctx: RuleCtx) -> None:
         m = attr_chain(pair.elts[0]) or ''
         kind = kinds.get(m[5:]) if m.startswith('self.') else None
         if kind is None:
+            m2 = attr_chain(pair.elts[1]) or ''
+            if m2.startswith('self.') and kinds.get(m2[5:]):
+                return (f'{m} where the function belongs', f'{kinds[m2[5:]]} function where the name belongs')
             raise Undecided(f'_get_candidates: cannot classify candidate function {m}')
         used.add(kind)
         a = norm(pair.elts[1])
@@ -791,11 +817,14 @@ def r1g(ctx: RuleCtx) -> None:
     qn3 = f'{H}._check_version'
     fn3 = _fn(mod, qn3)
     tab3 = symtable(fn3, qn3, bool_returns=True)
-    sem3 = {_truth('ARG1'): 'constraint', Atom('cmp', ('eq', 'ARG2', "'undefined'")): 'undefined',
+    sem3 = {_truth('ARG1'): 'constraint', Atom('cmp', ('eq', 'ARG2', "'undefined'")): "found == 'undefined'",
             _truth('version_compare_many(ARG2, ARG1)[0]'): 'all hold'}
+    for a in tab3.atoms():     # further placeholders for "no version" (which ones there must be is R6's business)
+        if a.kind == 'cmp' and a.args[0] == 'eq' and a.args[1] == 'ARG2' and isinstance(_parse(a.args[2]), ast.Constant):
+            sem3[a] = f'found == {a.args[2]}'
     decide(ctx, mod, qn3, fn3, tab3, sem3,
-           lambda v: ('return', 'True') if not v['constraint'] else ('return', 'False') if v['undefined'] else ('return', str(v['all hold'])),
-           lambda r: r.outcome, 'no constraint -> ok; undefined version -> mismatch; else all constraints hold')
+           lambda v: ('return', 'True') if not v['constraint'] else ('return', 'False') if any(x for k, x in v.items() if k.startswith('found == ')) else ('return', str(v['all hold'])),
+           lambda r: r.outcome, 'no constraint -> ok; placeholder version -> mismatch; else all constraints hold')
 
 
 # ---------------------------------------------------------------------------------------------
@@ -893,15 +922,22 @@ def r2b(ctx: RuleCtx) -> None:
         else:
             raise Undecided(f'PackageDefinition.get leaves by {out}')
     # hash_file: sha256 over the content of that path
-    hf = mod.func(f'{R}.hash_file')
+    hf = _fn(mod, f'{R}.hash_file')
     fl = Flow(hf)
     rets = [n for n in walk_no_nested(hf) if isinstance(n, ast.Return)]
-    ok = bool(rets)
+    if not rets:
+        raise Undecided('hash_file: no return found')
     for rt in rets:
         o = fl.origins(rt.value) if rt.value is not None else set()
-        ok = ok and call_method(rt.value) == 'hexdigest' and 'call:hashlib.sha256' in o and 'param:path' in o and 'call:open' in o  # type: ignore[arg-type]
-    ctx.require(ok, 'hash_file returns sha256(content of path).hexdigest()', mod, f'{R}.hash_file', hf,
-                'hash_file does not return the sha256 hexdigest of the file at `path`')
+        reads = any(x.startswith('call:') and x.split('.')[-1] in ('read', 'read_bytes') or x == 'call:open' for x in o)
+        good = rt.value is not None and call_method(rt.value) == 'hexdigest' and 'call:hashlib.sha256' in o and 'param:path' in o and reads
+        if not good:
+            # positive evidence only: a sha256 over something made from the *name* (no read of the file anywhere in the flow)
+            other = {x for x in o if x.startswith('call:') and x[5:].split('.')[-1] not in ('sha256', 'hexdigest', 'update', 'encode', 'str', 'bytes', 'fsencode', '<dynamic>')}
+            if not ('call:hashlib.sha256' in o and 'param:path' in o and not reads and not other):
+                raise Undecided(f'hash_file: `{short(rt)}` is not read as sha256(content of path).hexdigest() (flows from {sorted(o)})')
+        ctx.require(good, 'hash_file returns sha256(content of path).hexdigest()', mod, f'{R}.hash_file', rt,
+                    f'`{short(rt)}` hashes a value made from the file name, not the content of the file at `path` (flows from {sorted(o)})')
 
 
 def _assigned(fn: ast.AST, name: str) -> T.List[ast.AST]:
@@ -1276,6 +1312,8 @@ class _Net:
                 else:
                     # a call through a constant dispatch table: every entry of the table may be the callee (finite declared domain)
                     for v in self.dispatch_targets(c, fn) or []:  # type: ignore[arg-type]
+                        if isinstance(v, ast.Call) and (call_name(v) or '').split('.')[-1] == 'partial' and v.args:
+                            v = v.args[0]               # functools.partial(f, ...) calls f
                         if isinstance(v, ast.Lambda):
                             todo.extend(x for x in ast.walk(v.body) if isinstance(x, ast.Call))
                         elif (attr_chain(v) or '').startswith('self.') and (attr_chain(v) or '')[5:] in self.methods:
@@ -1669,6 +1707,149 @@ def r5(ctx: RuleCtx) -> None:
                     bad[1] if bad else None)
 
 
+# ---------------------------------------------------------------------------------------------
+# R6  a placeholder for "no version" never satisfies a version constraint on the cached path either
+
+DBASE = 'mesonbuild/dependencies/base.py'
+
+
+def r6(ctx: RuleCtx) -> None:
+    bmod = ctx.repo.module(DBASE)
+    fmod = ctx.repo.module(DF)
+    # the placeholders: string constants that Dependency.get_version() returns instead of a version
+    gv = bmod.func('Dependency.get_version')
+    place: T.Dict[str, str] = {}
+    for sp in sympaths(gv):
+        v = sp.value()
+        if sp.path.outcome == 'return' and isinstance(v, ast.Constant) and isinstance(v.value, str):
+            place[v.value] = f'Dependency.get_version() returns {v.value!r} on `{short(sp.path.describe(), 80)}`'
+        elif sp.path.outcome == 'return' and not (v is not None and norm(v) == 'self.version'):
+            raise Undecided(f'Dependency.get_version: return value {short(v)} not understood')
+    # the system path: ExternalDependency._check_version compares self.version with the constraints only when there is a version
+    qe = 'ExternalDependency._check_version'
+    if bmod.has_func(qe):
+        ext = bmod.func(qe)
+        n_cmp = 0
+        seen_e: T.Set[str] = set()
+        for sp in sympaths(ext):
+            for o, sc, i in sp.calls():
+                if call_method(o) != 'version_compare_many' or not sc.args or norm(sc.args[0]) != 'self.version':
+                    continue
+                n_cmp += 1
+                before = {a: v for a, v, j in sp.conds() if j <= i}
+                has = before.get(_truth('self.version'), before.get(_truth('bool(self.version)')))
+                none = before.get(Atom('is', ('self.version', 'None')))
+                key = f'{has}|{none}'
+                if key in seen_e:
+                    continue
+                seen_e.add(key)
+                if has is True:
+                    ctx.ok('ExternalDependency._check_version compares versions only when self.version is non-empty')
+                elif none is False and has is None:
+                    ctx.violation(bmod, qe, 'version_compare_many(self.version, ...) after `self.version is not None`',
+                                  f'on the path `{short(sp.path.describe(), 140)}` an empty version string reaches version_compare_many(): only None counts as unknown, '
+                                  "so '' satisfies upper-bound constraints such as '<2.0' and the system dependency is accepted", o)
+                else:
+                    raise Undecided(f'{qe}: the comparison is reached without a test of self.version this rule reads ({sorted(map(repr, before))[:4]})')
+        if n_cmp == 0:
+            raise Undecided(f'{qe}: no comparison of self.version with the constraints found')
+    if not place:
+        ctx.ok('Dependency.get_version() has no placeholder for a missing version', nontrivial=False)
+        return
+    qn = f'{H}._check_version'
+    fn = _fn(fmod, qn)
+    paths = sympaths(fn)
+
+    def consistent(a: Atom, val: bool, s: str) -> T.Optional[bool]:
+        """is `atom == val` consistent with: a constraint is given and found == s?"""
+        if a == _truth('ARG1'):
+            return val
+        if a.kind == 'cmp' and a.args[0] == 'eq' and 'ARG2' in a.args[1:]:
+            other = [x for x in a.args[1:] if x != 'ARG2']
+            c = _parse(other[0]) if other else None
+            if not isinstance(c, ast.Constant):
+                raise Undecided(f'{qn}: comparison of the found version with {other} not understood')
+            return (c.value == s) == val
+        if a.kind == 'in' and a.args[0] == 'ARG2':
+            c = _parse(a.args[1])
+            if not (isinstance(c, (ast.Tuple, ast.Set, ast.List)) and all(isinstance(x, ast.Constant) for x in c.elts)):
+                raise Undecided(f'{qn}: membership test {a!r} not understood')
+            return (s in [x.value for x in c.elts]) == val  # type: ignore[attr-defined]
+        if a.kind == 'truth' and 'version_compare_many(ARG2' in a.args[0]:
+            return None            # what the comparison of a placeholder with the constraints gives is exactly what must not matter
+        raise Undecided(f'{qn}: test {a!r} not understood')
+    for s_, why in sorted(place.items()):
+        bad = None
+        for sp in paths:
+            conds = [(a, v) for a, v, _ in sp.conds()]
+            verdicts = [consistent(a, v, s_) for a, v in conds]
+            if any(x is False for x in verdicts):
+                continue
+            out = sp.outcome()
+            if out != ('return', 'False'):
+                bad = (sp, out)
+                break
+        ctx.require(bad is None, f'a constraint is never satisfied by the placeholder {s_!r} ({why})', fmod, qn, f'placeholder {s_!r}',
+                    f'with a version constraint and found == {s_!r} ({why}) the path `{short(bad[0].path.describe(), 140) if bad else ""}` '
+                    f'leaves the verdict to version_compare_many({s_!r}, ...): a cached/overridden dependency of unknown version satisfies e.g. "<2.0", '
+                    'while ExternalDependency._check_version rejects an unknown version for every constraint', fn)
+
+
+# ---------------------------------------------------------------------------------------------
+# R7  the [provide] tables are keyed by lower-case names: every read uses a lower-cased key
+
+PROVIDE_TABLES = ('provided_deps', 'wrapdb_provided_deps')
+
+
+def r7(ctx: RuleCtx) -> None:
+    mod = ctx.repo.module(WRAP)
+    n_reads = 0
+    seen: T.Set[str] = set()
+    for name in mod.methods(R):
+        raw = mod.func(f'{R}.{name}')
+        if not any(isinstance(n, ast.Attribute) and n.attr in PROVIDE_TABLES for n in ast.walk(raw)):
+            continue
+        fn = _fn(mod, f'{R}.{name}')
+        for sp in sympaths(fn):
+            reads: T.List[T.Tuple[ast.AST, ast.AST, int]] = []      # (table, key, event index)
+            for i, ev in enumerate(sp.path.events):
+                if ev.node is None or ev.kind == 'exc':
+                    continue
+                roots = [ev.node.iter] if ev.kind == 'iter' else [x.context_expr for x in ev.node.items] if ev.kind == 'with' else [ev.node]  # type: ignore[union-attr]
+                for r_ in roots:
+                    for x in walk_no_nested(r_):
+                        if isinstance(x, ast.Call) and isinstance(x.func, ast.Attribute) and x.func.attr == 'get' and x.args:
+                            reads.append((x.func.value, x.args[0], i))
+                        elif isinstance(x, ast.Subscript) and isinstance(x.ctx, ast.Load):
+                            reads.append((x.value, x.slice, i))
+                        elif isinstance(x, ast.Compare) and len(x.ops) == 1 and isinstance(x.ops[0], (ast.In, ast.NotIn)):
+                            reads.append((x.comparators[0], x.left, i))
+            for tab_e, key_e, i in reads:
+                t = sp.sym(tab_e, i)
+                if not (isinstance(t, ast.Attribute) and t.attr in PROVIDE_TABLES):
+                    continue
+                k = sp.sym(key_e, i)
+                kt = norm(k)
+                sig = f'{name}|{norm(t)}|{kt}'
+                if sig in seen:
+                    continue
+                seen.add(sig)
+                n_reads += 1
+                lowered = isinstance(k, ast.Call) and isinstance(k.func, ast.Attribute) and k.func.attr == 'lower' and not k.args
+                own_key = isinstance(k, ast.Call) and attr_chain(k.func) == 'each' and any(isinstance(a, ast.Attribute) and a.attr in PROVIDE_TABLES for a in ast.walk(k))
+                literal = isinstance(k, ast.Constant) and isinstance(k.value, str) and k.value == k.value.lower()
+                if lowered or own_key or literal:
+                    ctx.ok(f'{name}: {short(t, 50)} read with {"its own key" if own_key else "a lower-cased key"} {short(kt, 50)}')
+                elif isinstance(k, ast.Name) and k.id.startswith('ARG'):
+                    ctx.violation(mod, f'{R}.{name}', f'{norm(t)} read with {kt}',
+                                  f'{short(t, 60)} is keyed by lower-case names (its writers lower-case them), but on the path `{short(sp.path.describe(), 120)}` '
+                                  f'it is read with the caller\'s spelling of parameter {k.id[3:]}: a [provide] entry is not found for a name written with capitals',
+                                  key_e)
+                else:
+                    raise Undecided(f'{R}.{name}: key {short(kt, 80)} of a read of {short(t, 40)} is neither lower-cased nor a parameter as given')
+    ctx.floor('reads of the [provide] tables', n_reads, 1)
+
+
 # A rule reads one or two modules; when their content is the one an earlier run in this process already judged (the
 # refactoring sweep analyses 300 overlays, most of which do not touch them) the recorded obligations are replayed.
 _DONE: T.Dict[T.Any, T.Tuple[T.List[T.Tuple[str, tuple, dict]], T.Optional[BaseException]]] = {}
@@ -1718,6 +1899,8 @@ def _replayable(fn: T.Callable[[RuleCtx], None], *files: str) -> T.Callable[[Rul
 r1a, r1b, r1c, r1d, r1e, r1f, r1g = (_replayable(f, DF) for f in (r1a, r1b, r1c, r1d, r1e, r1f, r1g))
 r2a, r2b, r2c, r2d, r3, r4 = (_replayable(f, WRAP) for f in (r2a, r2b, r2c, r2d, r3, r4))
 r5 = _replayable(r5, DETECT, INTERP, DF)
+r6 = _replayable(r6, DBASE, DF)
+r7 = _replayable(r7, WRAP)
 
 RULES = [
     Rule('C10.R1a', 'candidate order and guards (_get_candidates)', r1a),
@@ -1733,5 +1916,7 @@ RULES = [
     Rule('C10.R2d', 'unpack_archive only on paths from _get_file_internal', r2d),
     Rule('C10.R3', 'check_can_download() precedes every network primitive reachable from resolve()', r3),
     Rule('C10.R5', 'keyword arguments applied after / rewritten during the lookup are not part of the dependency identifier', r5),
+    Rule('C10.R6', 'a placeholder for a missing version never satisfies a version constraint on the cached path', r6),
+    Rule('C10.R7', 'the [provide] tables are read with lower-cased keys', r7),
     Rule('C10.R4', 'patch/diff failure removes the directory and re-raises; returns gated by has_buildfile()', r4),
 ]
